@@ -70,6 +70,12 @@ def run(ctx):
         except Exception:  # noqa: BLE001
             continue
         cases.append((prep, b"".join(good[:k]) + bad + b"".join(good[k + 1:]), "interior"))
+        alt = PR.reencode_lenforms(rng, good[k])
+        if alt is not None:
+            cases.append((prep, b"".join(good[:k]) + alt + b"".join(good[k + 1:]), "length-forms"))
+            bad2 = PR.corrupt_interior(rng, alt)
+            if bad2 is not None and rng.random() < 0.5:
+                cases.append((prep, bad2 + b"".join(good[k + 1:]), "interior+length-forms"))
     for prep, data, kind in cases:
         parts = [[data]] + ber.chunkings(rng, data, ctx.scale(3, 10))
         if len(data) <= 60:
